@@ -17,7 +17,13 @@ THEOREMS = ['Tbox.C12.' + t for t in [
     'C12_url_path_roundtrip', 'C12_url_path_roundtrip_counterexample_key', 'C12_url_reparse_counterexample',
     'C12_url_path_roundtrip_counterexample_frag', 'C12_url_path_roundtrip_counterexample_path', 'C12_url_total',
     'C12_request_roundtrip', 'C12_request_roundtrip_counterexample',
-    'C12_nothing_after_close_counterexample_unpatched', 'C12_closing_response_lost_unpatched']]
+    'C12_nothing_after_close_counterexample_unpatched', 'C12_closing_response_lost_unpatched',
+    'C12_url_host_roundtrip', 'C12_url_abs_roundtrip', 'C12_url_host_roundtrip_counterexample_user',
+    'C12_url_host_roundtrip_counterexample_password', 'C12_url_host_roundtrip_counterexample_host',
+    'C12_url_host_roundtrip_counterexample_pw_without_user', 'C12_url_host_roundtrip_counterexample_percent',
+    'C12_url_host_roundtrip_counterexample_port', 'C12_url_abs_roundtrip_counterexample_scheme',
+    'C12_url_abs_roundtrip_counterexample_noscheme', 'C12_port_width', 'C12_port_width_counterexample',
+    'C12_content_length_width', 'C12_declared_length_waits', 'C12_scripted_peer_stream']]
 SOURCES = [
     'modules/http/common.cpp', 'modules/http/url.cpp', 'modules/http/request.cpp', 'modules/http/respond.cpp',
     'modules/http/server/request_parser.cpp', 'modules/http/server/server.cpp', 'modules/http/server/server_imp.cpp',
@@ -60,8 +66,22 @@ TRUSTED = ['models lean/TboxModel/C12/Model.lean (parser, feed loop) and Pipelin
            '(all 256 byte values in every position class) and compare results, printed forms and the re-read value (rt=)',
            'ops mkreq/mkres build arbitrary Request/Respond values, compare toString() byte for byte and feed the request text back into a real RequestParser',
            'ops sstop/sclean call Server::stop()/cleanup() outside any handler while contexts are held (late commits after teardown)',
-           'std::map / std::string of libstdc++ behave as ordered map / byte string']
+           'std::map / std::string of libstdc++ behave as ordered map / byte string',
+           'fault schedules: the harness interposes write / readv / accept / shutdown on the server side of the connection; op `wq` queues the '
+           'answers of the next write() calls (pass, short count, EAGAIN, EPIPE-for-good), `rseg` makes the next readv fail with ECONNRESET, '
+           '`srv k` makes the first k accept() calls fail; the model (Pipeline.lean WAns / directWrite / drain / quiesce) takes the same answers '
+           'as oracle input; BufferedFd::send / onWriteCallback (network/, property C06) are modelled as far as the http server depends on them: '
+           'append when the buffer is not empty, direct write otherwise, EAGAIN buffers, any other error DROPS the chunk, the write event reports '
+           'send-complete when it finds the buffer empty — also after a drop',
+           'shutdown() calls on the server side are a model-internal observable (`M shutdown`; the server makes none)',
+           'a case with a peer half-close is run as coded (`chalf`) and — for the first 3 such cases — as the property asks (`chalfS`, recorded finding); '
+           'the fingerprint of the finding is given only when the implementation reports EOF where responses were still expected AND the same '
+           'history agrees with the model of the code as it is; everything else in such a history keeps its own fingerprint']
 ASSUMPTIONS = ['size_t is 64 bit', 'operator new does not fail',
+               'fewer than 2^31-1 requests on one connection (req_index / res_index / close_index are int, INT_MAX is the "no closing request" marker)',
+               'strings given to StringToUrlHost are shorter than 2^31 bytes (url.cpp:208 keeps a position in an int)',
+               'a failed write on a socket is permanent (EPIPE / ECONNRESET); transient errors other than EAGAIN (ENOBUFS, EINTR) make BufferedFd::send '
+               'drop data on a live connection - property C06, not modelled here',
                'each Context is destroyed once (shared_ptr), so each delivered request commits exactly once']
 RULE = ('cases from props/C12/plugin.py: (a) parser level — pipelines of 1-4 generated requests (7 methods, targets with params/query/'
         'fragment/escapes, 3 versions, 0-3 extra headers, Content-Length + body incl. CR/LF/NUL bytes), fed through a real RequestParser '
@@ -82,7 +102,13 @@ RULE = ('cases from props/C12/plugin.py: (a) parser level — pipelines of 1-4 g
         '(f) Request::toString / Respond::toString on arbitrary values, the request text re-parsed; (g) header-line families (case of names, '
         'duplicates, white space, empty values, no space after the colon, control/high bytes, Content-Length spellings, 5 kB lines) at parser and '
         'server level; (h) 4-7 pipelined requests answered in fixed nasty and random permutations, with a permanent gap, with a closing request; '
-        '(i) Server::stop()/cleanup() outside handlers at random points followed by late completions. '
+        '(i) Server::stop()/cleanup() outside handlers at random points followed by late completions; '
+        '(j) FAULT SCHEDULES: answers of the kernel to the server\'s write() calls chosen by the op file (pass / short count incl. 0 / EAGAIN / EPIPE at any '
+        'call index: in the middle of a batch of parked responses released by one commit, inside the receive callback, while a 300 kB response drains), '
+        'a readv error while contexts are held, 1-5 failing accept() calls before the connection is accepted; '
+        '(k) width families: Content-Length strings on both sides of 2^15/2^16/2^31/2^32/2^63/2^64-2, with sign / blank / hex / leading zeros, as a '
+        'DECLARED length with a 3-byte body followed by peer close / half-close / more bytes; header lines of 32767..131073 bytes; ports on both sides of '
+        '2^15/2^16/2^31/2^32/2^63; parse() input at every start alignment 0..7, right-aligned against an ASan redzone. '
         'non-trivial = the model run delivers at least one request out of >= 2 segments, or parks/flushes a response, or fails/closes, '
         'or sees a peer close or a large response; '
         'distinct = distinct op text')
@@ -99,8 +125,9 @@ LEVEL_TEXT = ('Lean 4 theorems over a hand-written model of RequestParser::parse
 LEVEL_NOTE = ('trusted: Lean kernel, hand-written model + differential tie (coverage bounded by the generator, measured in evidence); '
               'requests without Content-Length are outside the segmentation theorem (the code takes "everything in the buffer" as body); '
               'peer half-close is modelled AS CODED (read-zero tears the connection down; outstanding responses are lost — recorded as a '
-              'finding, C12_half_close_counterexample); the send-side contract is assumed (C06); a transient write error inside '
-              'BufferedFd::send (data dropped, connection kept) belongs to C06 and is exercised only as a permanent failure')
+              'finding, C12_half_close_counterexample; a repair needs a half-close notion in TcpConnection + TcpServer + http Server); the send-side '
+              'contract is assumed (C06) except that the kernel\'s answers to write() are oracle inputs here (short / EAGAIN / EPIPE at any call); a TRANSIENT '
+              'write error other than EAGAIN inside BufferedFd::send (data dropped, connection kept) belongs to C06 and is not modelled')
 TECHNIQUE = 'Lean 4 proofs over an executable parser/feed-loop/pipeline model + model/implementation correspondence check'
 DESIGN_REF = 'DESIGN.md §6 C12, §7 row 6'
 
@@ -256,7 +283,83 @@ def gen_parser_case(rng):
 # finding (fp below) in known_findings.txt the generator asks for what the PROPERTY wants instead (`chalfS`: outstanding
 # responses still written), so that every run reports KNOWN-FINDING with a concrete replay.
 HALF_FP = 'srv-halfclose-responses-lost'
-HALF_OP = 'chalfS' if any(fp == HALF_FP for (fp, _) in vlib.load_findings('C12')) else 'chalf'
+HALF_KNOWN = any(fp == HALF_FP for (fp, _) in vlib.load_findings('C12'))
+HALF_OP = 'chalfS' if HALF_KNOWN else 'chalf'
+
+
+def half_variants(ops):
+    """a case with a half-close is run AS CODED (`chalf`: full tie of what the code does, so every other deviation in such a
+    history is still reported) and, once the finding is recorded, also as the PROPERTY wants it (`chalfS`: KNOWN-FINDING)"""
+    if not any(o in ('chalf', 'chalfS') for o in ops):
+        yield ops; return
+    yield ['chalf' if o == 'chalfS' else o for o in ops]
+    if HALF_KNOWN: yield ['chalfS' if o == 'chalf' else o for o in ops]
+
+
+WQ_ANS = ['p', 'p', 'a', 'e', 's0', 's1', 's5', 's17', 's40', 's100000']
+WQ_FIXED = ['e', 'p,e', 'p,p,e', 's5,e', 'a,e', 's5,a,s3,p', 'p,s0,e', 'a,a,a', 's1,s1,s1,s1,e', 's0,s0,p', 'p,a,p', 's17,p,e', 'a,p,p']
+
+
+def big_safe(spec):
+    """for histories with responses larger than the socket buffer: `p` (pass through) would let the REAL kernel decide how much it
+    takes; use a short count that always fits instead, so that model and implementation see the same answers"""
+    return ','.join('s50000' if (a == 'p' or (a[0] == 's' and int(a[1:]) > 50000)) else a for a in spec.split(','))
+
+
+def wq_spec(rng):
+    return ','.join(rng.choice(WQ_ANS) for _ in range(rng.choice([1, 1, 2, 2, 3, 4, 6])))
+
+
+def gen_fault_case(rng):
+    """fault schedules through TcpServer/TcpConnection/BufferedFd under the http server: the kernel's answers to the server's
+    write() calls (short count, EAGAIN, EPIPE) at chosen call indices — in the middle of a batch of pipelined responses released
+    by one commit, inside the receive callback, while a large response drains —, a read error, accept errors"""
+    k = rng.choice([2, 3, 3, 4, 5])
+    closing = rng.random() < 0.4
+    reqs = [('GET /%d HTTP/1.1\r\n%sContent-Length: 0\r\n\r\n' % (i, 'Connection: close\r\n' if closing and i == k - 1 else '')).encode() for i in range(k)]
+    ops = ['srv' if rng.random() < 0.8 else 'srv %d' % rng.choice([1, 2, 3, 5])]
+    spec = rng.choice(WQ_FIXED) if rng.random() < 0.6 else wq_spec(rng)
+    fam = rng.choice(['batch', 'batch', 'batch', 'sync', 'big', 'rerr', 'mixed'])
+    if fam == 'batch':          # every context kept; the commit of request 0 releases the parked responses 1..k-1
+        ops.append('seg ' + hx(b''.join(reqs)))
+        rest = list(range(1, k)); rng.shuffle(rest)
+        gap = rng.choice([None, None, rest[0]])
+        for i in rest:
+            if i != gap: ops.append('done %d %s' % (i, hx(b'r%d' % i)))
+        ops.append('wq ' + spec)
+        ops.append('done 0 ' + hx(b'r0'))
+        if gap is not None: ops.append('done %d %s' % (gap, hx(b'gap')))
+    elif fam == 'sync':         # responses written from inside the receive callback, one direct write each
+        for i in range(k):
+            if rng.random() < 0.8: ops.append('sync %d %s' % (i, hx(b's%d' % i)))
+        ops.append('wq ' + spec)
+        for sg in split_stream(rng, b''.join(reqs), rng.choice(['one', 'one', 'two'])): ops.append('seg ' + hx(sg))
+        for i in range(k):
+            if not any(o.startswith('sync %d ' % i) for o in ops): ops.append('done %d %s' % (i, hx(b'd%d' % i)))
+    elif fam == 'big':          # a large response drains through several write events
+        ops.append('seg ' + hx(b''.join(reqs)))
+        ops.append('wq ' + rng.choice(['s1000', 's50000,a,s50000', 's50000,e', 'a,s5', 's50000,s1,s1,a,s50000', 's50000,s50000,e', 'e', 'a,e', big_safe(wq_spec(rng))]))
+        ops.append('doneN 0 %d %d' % (rng.choice([5000, 70000, 300000]), rng.randrange(256)))
+        for i in range(1, k): ops.append('done %d %s' % (i, hx(b'r%d' % i)))
+    elif fam == 'rerr':
+        cut = rng.randrange(1, k)
+        ops.append('seg ' + hx(b''.join(reqs[:cut])))
+        done = [i for i in range(cut) if rng.random() < 0.5]
+        for i in done: ops.append('done %d %s' % (i, hx(b'r%d' % i)))
+        ops.append('rseg ' + hx(b''.join(reqs[cut:])))
+        for i in range(cut):
+            if i not in done: ops.append('done %d %s' % (i, hx(b'late%d' % i)))
+        ops.append('seg ' + hx(reqs[0]))
+    else:
+        ops = gen_server_case(rng)
+        first = 1 + sum(1 for o in ops if o.startswith(('sync ', 'script ')))
+        big = any(o.startswith(('doneN ', 'dcloseN ')) for o in ops)
+        for _ in range(rng.choice([1, 2])):
+            sp = wq_spec(rng)
+            ops.insert(rng.randrange(first, len(ops) + 1), 'wq ' + (big_safe(sp) if big else sp))
+        return ops
+    if rng.random() < 0.3: ops.append(rng.choice(['cclose', 'seg ' + hx(reqs[0]), 'sstop']))
+    return ops
 
 
 CHAIN_SCRIPTS = ['n/b41', 'n/n/b42', 'n.n/b41.k/-', 'b41.n/n/b42', 'n/k', 'k.n/b41', 'n/n/n', 'n.n/n.n/b43', '-', 'b-', 'n/-/b44',
@@ -303,7 +406,7 @@ def gen_boundary_case(rng):
         cuts = sorted(set(rng.sample(region, min(len(region), rng.choice([2, 3, 4])))))
     elif fam == 'big':
         kind = rng.choice(['line', 'many', 'target', 'value-spaces'])
-        if kind == 'line': hdrs = 'X-Long: ' + 'v' * rng.choice([1023, 1024, 1025, 4096, 65535, 65536, 70000]) + '\r\n'
+        if kind == 'line': hdrs = 'X-Long: ' + 'v' * rng.choice([1023, 1024, 1025, 4096, 32767, 32768, 65535, 65536, 65537, 70000, 131073]) + '\r\n'
         elif kind == 'many': hdrs = ''.join('H%d: %d\r\n' % (i, i) for i in range(rng.choice([100, 500, 1500])))
         elif kind == 'value-spaces': hdrs = 'X-S:' + ' ' * rng.choice([255, 4096]) + 'v' + ' ' * rng.choice([0, 300]) + '\r\n'
         else: hdrs = ''
@@ -317,14 +420,17 @@ def gen_boundary_case(rng):
     else:
         v = rng.choice(['18446744073709551613', '18446744073709551614', '18446744073709551615', '18446744073709551616', '9223372036854775807',
                         '9223372036854775808', '4294967295', '4294967296', '2147483647', '2147483648', '00000000000000000000000000000003',
-                        '1' + '0' * 30, '0', '00', '3'])
+                        '1' + '0' * 30, '0', '00', '3', '65535', '65536', '32767', '32768', '+3', ' +3', '-3', '0x3', '3 ', '\t3', '٣', '3e0',
+                        '0000000000000000000018446744073709551614', '0000000000000000000018446744073709551615'])
         stream = ('PUT /l HTTP/1.1\r\nContent-Length: %s\r\n\r\nabc' % v).encode() + nxt
         cuts = sorted(rng.sample(range(1, len(stream)), rng.choice([0, 1, 2])))
     segs, prev = [], 0
     for c in cuts + [len(stream)]:
         if c > prev: segs.append(stream[prev:c]); prev = c
-    if rng.random() < 0.25:
-        return ['srv', 'sync 0 6f6b', 'sync 1 6f6b'] + ['seg ' + hx(x) for x in segs]
+    if rng.random() < (0.5 if fam == 'lenlimit' else 0.25):
+        # a DECLARED length far beyond what will ever arrive, a short body, then the peer gives up
+        tail = [rng.choice(['cclose', 'chalf', 'seg ' + hx(nxt)])] if fam == 'lenlimit' else []
+        return ['srv', 'sync 0 6f6b', 'sync 1 6f6b'] + ['seg ' + hx(x) for x in segs] + tail
     return ['feed ' + hx(x) for x in segs]
 
 
@@ -463,7 +569,8 @@ def rpathval(rng, wf=False):
 HOST_STRS = ['h', 'example.com', 'h:80', 'h:0', 'h:65535', 'h:65536', 'h:99999', 'h:-1', 'h:+80', 'h: 80', 'h:80x', 'h:', 'h:abc', 'h:2147483647',
              'h:2147483648', 'h:99999999999999999999', ':80', '', '@', 'u@h', 'u:p@h', 'u:p@h:8080', 'u:@h', ':p@h', '@h', 'u@', 'a@b@c', 'u:p:q@h',
              'u@h:1:2', 'h:1:2', '%41@h', '%zz@h', 'u:%4@h', 'u@%', 'u@h%41', '%3a:%40@h', 'u:p@h:', 'u@:80', 'u:p@:', '::', ':@:', 'h:\t80', 'h:0x10',
-             'h:00080', 'h:-65535', 'h:-65536', 'h:-2147483648', 'h:-2147483649', 'u:p@h:80/x']
+             'h:00080', 'h:-65535', 'h:-65536', 'h:-2147483648', 'h:-2147483649', 'u:p@h:80/x', 'h:32767', 'h:32768', 'h:-32768', 'h:-32769',
+             'h:4294967295', 'h:4294967296', 'h:9223372036854775808', 'h:65535x', 'h:65537', 'h:131071', 'h:131072']
 URL_STRS = ['http://h/p', 'http://h', 'http://h/', 'http://u:p@h:80/a;b=c?d=e#f', 'h/p', 'h', '/', '/p?a=1', '', '://', 'a://', '://h', 'http:///p',
             'http://h?x=1', 'http://h#f', 'http://h:80', 'http://h:80x/p', 'http://h:/p', 'http://%41/p', 'http://%zz/p', 'http://h/%zz',
             'a://b://c/d', 'http://u:p@h/p#x://y', 'h/p#://', 'u://x@h/', 'u:%2f%2fx@h/', 'http:/h/p', 'http:h/p', ':///', 'http://h/p;', 'http://h/p?',
@@ -582,7 +689,23 @@ BASE = [b'GET / HTTP/1.1\r\nContent-Length: 0\r\n\r\n',
         b'DELETE /%41 HTTP/2.0\r\nX: 1\r\nX: 2\r\nContent-Length: 1\r\n\r\nZ']
 
 
+HALF_SPEC_CASES = 3     # the check examines the first MAX_REPORT diverging cases only: the recorded finding must not crowd others out
+
+
 def gen(rng, tier):
+    nspec = 0
+    if HALF_KNOWN:      # the recorded finding, reproduced on every run: responses outstanding when the peer half-closes
+        three = ''.join('GET /%d HTTP/1.1\r\nContent-Length: 0\r\n\r\n' % i for i in range(3))
+        yield ['srv', 'seg ' + hx(three), 'done 1 31', 'chalfS', 'done 0 30', 'done 2 32']
+    for ops in gen_raw(rng, tier):
+        for v in half_variants(list(ops)):
+            if 'chalfS' in v:
+                nspec += 1
+                if nspec > HALF_SPEC_CASES: continue
+            yield v
+
+
+def gen_raw(rng, tier):
     # malformed op lines: both sides must answer bad-op
     yield ['feed 0g', 'feed', 'seg 00', 'done 0 00', 'sync 0 00', 'frob', 'feed 00 00']
     yield ['srv', 'feed 00', 'srv', 'seg -', 'seg zz', 'done 0 00', 'done x 00', 'sync 1 00', 'sync 1 01']
@@ -661,14 +784,41 @@ def gen(rng, tier):
         yield gen_msg_case(rng)
     for _ in range(250 if tier == 'quick' else 6000):
         yield gen_header_case(rng)
+    # --- fault schedules: the kernel's answers to the server's write()/readv()/accept() calls
+    yield ['srv', 'wq', 'wq x', 'wq p,,p', 'wq s', 'wq s-1', 'wq p,p,p,p,p,p,p,p,p', 'rseg', 'rseg -', 'rseg zz', 'wq p', 'cclose', 'rseg 00', 'wq e']
+    yield ['srv 0', 'srv 6', 'srv x', 'srv 1 2', 'wq p', 'rseg 00', 'srv 2', 'srv 1', 'seg ' + hx(three), 'done 0 30']
+    closing3 = three.replace('GET /2 HTTP/1.1\r\n', 'GET /2 HTTP/1.1\r\nConnection: close\r\n')
+    for spec in WQ_FIXED:
+        for stream in (three, closing3):
+            yield ['srv', 'seg ' + hx(stream), 'done 2 32', 'done 1 31', 'wq ' + spec, 'done 0 30', 'seg ' + hx(three)]
+            yield ['srv', 'sync 0 30', 'sync 1 31', 'sync 2 32', 'wq ' + spec, 'seg ' + hx(stream), 'seg ' + hx(three)]
+        yield ['srv', 'seg ' + hx(three), 'wq ' + big_safe(spec), 'doneN 0 300000 65', 'done 1 31', 'done 2 32', 'cclose']
+    for k in (1, 2, 3, 5):
+        yield ['srv %d' % k, 'sync 0 30', 'seg ' + hx(three), 'done 1 31', 'rseg ' + hx(three), 'done 2 32']
+    for _ in range(200 if tier == 'quick' else 5000):
+        yield gen_fault_case(rng)
 
 
 def nontrivial(ops, model_lines):
     tags = ' '.join(l for l in model_lines if l.startswith('B '))
     nseg = sum(1 for o in ops if o.startswith(('feed ', 'seg ')))
     if 'req-' in tags and nseg >= 2: return 1
-    if any(t in tags for t in ('parked', 'wrote-flush', 'wrote-closing', 'parse-fail', 'seg-after-close', 'peer-close', 'doneN', 'doneR', 'rel-', 'half-close', 'wfail', 'epipe', 'h-', 'url-', 'absurl-', 'host-', 'upath-', 'uhost-', 'mkreq', 'mkres', 'stop-')): return 1
+    if any(t in tags for t in ('wq-', 'read-error', 'accept-errors', 'parked', 'wrote-flush', 'wrote-closing', 'parse-fail', 'seg-after-close', 'peer-close', 'doneN', 'doneR', 'rel-', 'half-close', 'wfail', 'epipe', 'h-', 'url-', 'absurl-', 'host-', 'upath-', 'uhost-', 'mkreq', 'mkres', 'stop-')): return 1
     return None
+
+
+def _as_coded_agrees(ops):
+    """does the same history with the half-close handled AS CODED (`chalf`) agree between implementation and model?"""
+    import hashlib
+    rkey = '' if vlib.REPO == '/repo' else '_' + hashlib.sha1(vlib.REPO.encode()).hexdigest()[:8]
+    exe = os.path.join(vlib.CACHE, ID, 'harness_' + FLAVOUR + rkey)
+    alt = ['chalf' if o == 'chalfS' else o for o in ops]
+    try:
+        il, _ = vlib.run_harness_cases(exe, {0: alt}, timeout_per_batch=60)
+        ml = vlib.run_driver_cases(EXE, {0: alt})
+        return vlib.first_diff(il.get(0, []), ml.get(0, [])) is None
+    except Exception:
+        return False
 
 
 def fingerprint(ops, d):
@@ -680,7 +830,14 @@ def fingerprint(ops, d):
         if w[0] == 'CRASH': return 'crash:' + (w[1] if len(w) > 1 else '')
         if w[0] in ('P', 'M') and len(w) > 1: return w[0] + '-' + w[1].split('=')[0]
         return w[0]
-    if any(o == 'chalfS' for o in ops): return HALF_FP
     mode = 'srv' if any(o.startswith('srv') for o in ops) else 'parser'
+    if any(o == 'chalfS' for o in ops):
+        # the recorded finding, and only it: the implementation reports the end of the stream where the property still
+        # expects the outstanding responses, AND the very same history agrees with the model of the code as it is; any
+        # other deviation in a history with a half-close keeps its own fingerprint and is reported as a violation
+        impl_line = d[1] if d else ''
+        if impl_line.strip() in ('P eof', 'P out -') and not impl_line.startswith('CRASH') and _as_coded_agrees(ops):
+            return HALF_FP
+        return (mode + '-halfclose-other-' + cls(d[1] if d else '') + '-vs-' + cls(d[2] if d else '')).replace('/', '_').replace(':', '_').replace('<', '').replace('>', '')
     if not d: return mode + '-none'
     return (mode + '-' + cls(d[1]) + '-vs-' + cls(d[2])).replace('/', '_').replace(':', '_').replace('<', '').replace('>', '')
